@@ -558,16 +558,36 @@ func CheckC18(p *Pkg, e *Env, r *res.Result) {
 				}
 			}
 			var body []byte
+			docClass := ""
 			if rb := p.Doc.ResolveRequestBody(op.Spec.RequestBody); rb != nil {
 				if mt := rb.Content["application/json"]; mt != nil && mt.Schema != nil {
 					dg := &refmodel.DocGen{Doc: p.Doc, T: t, ExtraKeys: true}
 					doc := dg.Gen(mt.Schema, 4)
-					if mode == "body" && rapid.Bool().Draw(t, "mutant") {
+					docClass = ":valid-document"
+					bodyMode := 0
+					if mode == "body" {
+						bodyMode = rapid.SampledFrom([]int{0, 1, 1, 2}).Draw(t, "body_mode")
+					}
+					if bodyMode == 1 {
 						if sites := refmodel.FaultSites(p.Doc, mt.Schema, doc); len(sites) > 0 {
-							doc = refmodel.ApplyFault(t, p.Doc, mt.Schema, doc, sites[rapid.IntRange(0, len(sites)-1).Draw(t, "site")])
+							site := sites[rapid.IntRange(0, len(sites)-1).Draw(t, "site")]
+							doc = refmodel.ApplyFault(t, p.Doc, mt.Schema, doc, site)
+							docClass = ":document-with-" + site.Kind
 						}
 					}
 					body = refmodel.Render(t, doc, false)
+					if bodyMode == 2 {
+						// not JSON at all: both forms must refuse it
+						docClass = ":malformed-json"
+						if len(body) > 1 && rapid.Bool().Draw(t, "truncate") {
+							body = body[:rapid.IntRange(1, len(body)-1).Draw(t, "cut")]
+							if _, err := refmodel.DecodeJSON(body); err == nil {
+								body = append(body, '}', '{')
+							}
+						} else {
+							body = []byte(rapid.SampledFrom([]string{"", "{", "[1,", "{\"a\":}", "nul", "<xml/>", "a=b&c=d", "\x00\x01"}).Draw(t, "garbage"))
+						}
+					}
 					hdr.Set("Content-Type", "application/json")
 				} else {
 					body = []byte(rapid.StringN(0, 40, 160).Draw(t, "rawbody"))
@@ -589,7 +609,7 @@ func CheckC18(p *Pkg, e *Env, r *res.Result) {
 			case oa.Dispatch != ob.Dispatch || oa.Template != ob.Template:
 				fail("routing-differs", fmt.Sprintf("routed to %q vs %q", oa.Template, ob.Template), rep)
 			case oa.ParseErr != ob.ParseErr:
-				fail("accept-reject-differs", fmt.Sprintf("Parse() error %q vs %q", oa.ErrText, ob.ErrText), rep)
+				fail("accept-reject-differs"+docClass, fmt.Sprintf("Parse() error %q vs %q", oa.ErrText, ob.ErrText), rep)
 			case !oa.ParseErr && oa.Dispatch:
 				if d := treeDiff(oa.Params, ob.Params, "params"); d != "" {
 					fail("parsed-values-differ", d, rep)
